@@ -81,6 +81,36 @@ def minLoop (diff : Int) : List Rule → Int → Int → Option Int
 def countMin (rs : List Rule) (diff : Int) : Option Int :=
   if diff ≤ 0 then some 0 else minLoop diff rs 0 0
 
+/-! ### value copies of `CountGenerator` (`b := *a`): append aliasing
+
+`CountGenerator` holds one slice; a struct copy shares its backing array.  `AddRule` does
+`r.rules = append(r.rules, x)` and then sorts `r.rules` IN PLACE.  Go's `append` writes into
+the shared array when it has spare capacity (`len < cap`) and allocates a new array
+otherwise.  `RuleSlice` = backing array (its length is the capacity) + slice length. -/
+
+structure RuleSlice where
+  arr : List Rule
+  len : Nat
+deriving Repr, DecidableEq
+
+/-- what the slice shows -/
+def RuleSlice.view (s : RuleSlice) : List Rule := s.arr.take s.len
+
+/-- `AddRule` through slice `s`: the slice afterwards and whether a new array was
+allocated; `newCap` is the capacity the runtime picks when it has to grow (an input). -/
+def RuleSlice.add (s : RuleSlice) (x : Rule) (newCap : Nat) : RuleSlice × Bool :=
+  let sorted := (s.view ++ [x]).foldl addRule []          -- sort.Slice of the len+1 elements
+  if s.len < s.arr.length then
+    ({ arr := sorted ++ s.arr.drop (s.len + 1), len := s.len + 1 }, false)   -- same array
+  else
+    ({ arr := sorted ++ List.replicate (newCap - (s.len + 1)) ⟨0, 0, 0, 0⟩, len := s.len + 1 }, true)
+
+/-- What a COPY `b` (same array, its own length `b.len = s.len`) shows after `AddRule`
+through the original: the shared array if it was written in place, the old array otherwise. -/
+def RuleSlice.copyViewAfter (s : RuleSlice) (x : Rule) (newCap : Nat) : List Rule :=
+  let (s', alloc) := s.add x newCap
+  if alloc then s.view else s'.arr.take s.len
+
 /-! ### driver -/
 
 def parseRule (s : String) : Option Rule :=
